@@ -88,9 +88,39 @@ def applyOverrides : List (String × Option V) → AMap V → AMap V
   | (k, some v) :: rest, m => applyOverrides rest (m.set k v)
   | (_, none) :: _, m => m
 
-/-- `VirtualOS.Environ`, `Map.StringKeys`, `MockFS.ReadDir`, `ast.Map.String`, and the
-    emission of `compileMap`: the result lists the entries in visiting order -/
+/-- `Map.StringKeys`, `ast.Map.String`, the emission of `compileMap` (and, before their repair,
+    `VirtualOS.Environ` and `MockFS.ReadDir`): the result lists the entries in visiting order -/
 def inVisitingOrder (f : α → β) (vis : List α) : List β := vis.map f
+
+/-! ### Part 1a — the two listings that were repaired in /repo (collect, then sort) -/
+
+/-- one `KEY=value` line of an environment listing -/
+def envLine (kv : String × String) : String := kv.1 ++ "=" ++ kv.2
+
+/-- **Impl** `VirtualOS.Environ` as repaired ("fix: return the environment of a virtual OS in
+    sorted order"): the `KEY=value` strings are collected in visiting order, then `sort.Strings` -/
+def environ (vis : List (String × String)) : List String := sortedKeys (inVisitingOrder envLine vis)
+
+/-- `VirtualOS.Environ` BEFORE the repair (finding C05-virtualos-environ-order): no sort; kept so
+    that the defect stays a checked statement (`C05_fixed_environ_was_visiting_order`) -/
+def environPreFix (vis : List (String × String)) : List String := inVisitingOrder envLine vis
+
+/-- the `less` of the repaired `MockFS.ReadDir`, as a `≤` on (filename, path): by filename, the
+    path (the key of the Go map, so distinct for distinct entries) breaks ties -/
+def entLe (a b : String × String) : Bool :=
+  if a.1 != b.1 then decide (a.1 < b.1) else sle a.2 b.2
+
+/-- **Impl** `MockFS.ReadDir` as repaired ("fix: return the entries of a MockFS directory sorted
+    by filename"): the matching paths are collected in visiting order, `sort.Slice`d by
+    (filename, path), and the entries (filename, file info) are built in that order.
+    An entry of `vis` is (path, filename, info). -/
+def readDir (vis : List (String × String × I)) : List (String × I) :=
+  (isort (fun a b => entLe (a.2.1, a.1) (b.2.1, b.1)) vis).map (fun e => (e.2.1, e.2.2))
+
+/-- `MockFS.ReadDir` BEFORE the repair (finding C05-mockfs-readdir-order): the entries in
+    visiting order; kept for `C05_fixed_readdir_was_visiting_order` -/
+def readDirPreFix (vis : List (String × String × I)) : List (String × I) :=
+  inVisitingOrder (fun e => (e.2.1, e.2.2)) vis
 
 /-! ### Part 1b — `Set.SortedItems`, `sorted()`, and the VM's import cache over full hash keys -/
 
@@ -656,16 +686,25 @@ def printableCases : List (String × String) := [
 ]
 
 /-- which functions hand script values to a fmt verb, and how (tie: `Ties.format_sites_reviewed`).
-    `builtins.Sprintf` is shadowed in the default globals by `fmt.Sprintf`; `builtins.Error`
-    (the `error(fmt, …)` builtin) is reachable and hands over `Interface()` — `ifaceV` below. -/
+    `builtins.Sprintf` is shadowed in the default globals by `fmt.Sprintf`; `builtins.Error` is
+    the `error(fmt, …)` builtin.  Since the repair in /repo ("fix: format the arguments of error()
+    and the sprintf builtin with PrintableValue") every one of them goes through
+    `object.PrintableValue` (`RObj.printable`, `RObj.errorFmt` below). -/
 def formatSitesReviewed : List (String × String) := [
-  ("builtins.Error", "Interface"),
-  ("builtins.Sprintf", "Interface"),
+  ("builtins.Error", "PrintableValue"),
+  ("builtins.Sprintf", "PrintableValue"),
   ("errors.getFormatAndValues", "PrintableValue"),
   ("fmt.Errorf", "PrintableValue"),
   ("fmt.Printf", "PrintableValue"),
   ("fmt.Println", "PrintableValue"),
   ("fmt.Sprintf", "PrintableValue")
+]
+
+/-- the two rows as they were BEFORE that repair (finding C05-error-format-raw-go-value): both
+    handed `obj.Interface()` to fmt — `ifaceV` below -/
+def preFixFormatSites : List (String × String) := [
+  ("builtins.Error", "Interface"),
+  ("builtins.Sprintf", "Interface")
 ]
 
 /- an object as the renderer sees it: kind, address of the allocation (adversary), scalar
@@ -813,8 +852,13 @@ def RObj.stringBuiltin (o : RObj) : String :=
 def RObj.interp (o : RObj) : String :=
   if o.kind = .Error || o.kind = .String then o.raw else o.inspect
 
-/- **Impl** the `error(fmt, args…)` builtin (and `builtins.Sprintf`): every argument travels as
-   `obj.Interface()` and is rendered by Go's `%v`.  Function, module, thread, nil: `<nil>`;
+/-- **Impl** the `error(fmt, args…)` builtin and `builtins.Sprintf` as repaired: every argument
+    travels as `object.PrintableValue(obj)`, exactly as in `errorf`/`errors.new`/`fmt.sprintf` -/
+def RObj.errorFmt (o : RObj) : String := o.printable
+
+/- HISTORICAL (before the repair of finding C05-error-format-raw-go-value): the `error(fmt, args…)`
+   builtin and `builtins.Sprintf` handed every argument to fmt as
+   `obj.Interface()`, rendered by Go's `%v`.  Function, module, thread, nil: `<nil>`;
    list and set: `[a b]`; map: `map[k:v …]` (keys sorted by fmt); iterator entry:
    `map[key:K value:V]`; a cell: what it holds; channel: the Go channel, builtin: the Go func,
    file: the `*os.File`, partial: the wrapped function object, proxy/Go reflection wrappers: a
@@ -849,7 +893,7 @@ def rawAddrKind : Kind → Bool
   | .Chan | .Builtin | .File | .Partial | .Proxy | .GoType | .GoField | .GoMethod => true
   | _ => false
 
-/- guard of the finding C05-error-format-raw-go-value: no object whose `Interface()` is a Go
+/- HISTORICAL guard of the repaired finding C05-error-format-raw-go-value: no object whose `Interface()` is a Go
    pointer, channel or func anywhere in the graph -/
 mutual
   def RObj.noRawAddr : RObj → Bool
@@ -884,7 +928,8 @@ end
 /-! ## Part 3 — the reviewed classification of every map-range site -/
 
 inductive SiteClass where
-  /-- entries are collected and sorted before anything observes them (`sortedKeys_perm_invariant`) -/
+  /-- entries are collected and sorted before anything observes them (`sortedKeys_perm_invariant`,
+      `sortedItems_perm_invariant`, `environ_perm_invariant`, `readDir_perm_invariant`) -/
   | sortedAfter
   /-- entries collected unsorted, but every consumer in scope sorts them (`compiler.New`, `builtins.Encode` csv) (`globals_sorted_perm_invariant`) -/
   | sortedByConsumer
@@ -945,8 +990,8 @@ def mapSites : List (String × Nat × String × Bool × SiteClass) := [
   ("object.newGoType", 0, "mapwrite", true, .insertFold),
   ("object.newGoType", 1, "mapwrite", true, .insertFold),
   ("object.newGoType", 2, "append", true, .sortedAfter),
-  ("os.MockFS.ReadDir", 0, "append,call", false, .visitingOrder "C05-mockfs-readdir-order"),
-  ("os.VirtualOS.Environ", 0, "append", false, .visitingOrder "C05-virtualos-environ-order"),
+  ("os.MockFS.ReadDir", 0, "append,call", true, .sortedAfter),
+  ("os.VirtualOS.Environ", 0, "append", true, .sortedAfter),
   ("os.VirtualOS.findMount", 0, "call,return", false, .maxSelect),
   ("os.WithEnvironment", 0, "mapwrite", false, .insertFold),
   ("os.WithMounts", 0, "mapwrite", false, .insertFold),
@@ -968,6 +1013,14 @@ def mapSites : List (String × Nat × String × Bool × SiteClass) := [
   ("vm.basicBuiltins", 1, "mapwrite", false, .testOnly),
   ("vm.newVM", 0, "mapwrite", false, .testOnly),
   ("vm.newVM", 1, "append", false, .testOnly)
+]
+
+/-- the rows of `VirtualOS.Environ` and `MockFS.ReadDir` as they were BEFORE their repair in
+    /repo (no sort call after the collecting loop; the listing was in visiting order): kept so
+    that the defects stay checked statements (`C05_fixed_sites_were_unsorted`) -/
+def preFixSites : List (String × Nat × String × Bool × SiteClass) := [
+  ("os.MockFS.ReadDir", 0, "append,call", false, .visitingOrder "C05-mockfs-readdir-order"),
+  ("os.VirtualOS.Environ", 0, "append", false, .visitingOrder "C05-virtualos-environ-order")
 ]
 
 end Risor.C05
